@@ -171,6 +171,11 @@ func (e *Engine) initExterns() {
 	round("math.Floor", "RTN", true)
 	// --- sync ---------------------------------------------------------------------------
 	lock := func(name string, write bool, acquire bool) {
+		defer func() {
+			e.externs[name].mods = func(c *FnCtx, cc *ssa.CallCommon, ms *loopModSet) {
+				ms.heaps["held$"] = SArr(SInt, SBool)
+			}
+		}()
 		reg(name, "mutex: ghost held flag", func(c *FnCtx, st *State, args []SV, rt types.Type) SV {
 			c.trusted["sync.Mutex/RWMutex provide mutual exclusion (ghost held flag per mutex)"] = true
 			mu := args[0].(Sc).T
